@@ -49,6 +49,20 @@ def centreG [Add α] [Div α] (zero n : α) (vs : List (α × α)) : α × α :=
 def faceToIjG [Add α] [Mul α] (bi : α × α × α × α) (p : α × α) : α × α :=
   (bi.1 * p.1 + bi.2.1 * p.2, bi.2.2.1 * p.1 + bi.2.2.2 * p.2)
 
+/-- generic twin of `polyArea` (`PentagonShape::get_area` before the final halving: the trapezoid sum
+`Σ (x_{i+1} - x_i) (y_{i+1} + y_i)`, cyclic) -/
+def areaG [Add α] [Sub α] [Mul α] (zero : α) (vs : List (α × α)) : α :=
+  let n := vs.length
+  let rec go : Nat → Nat → α → α
+    | 0, _, acc => acc
+    | m + 1, i, acc =>
+      let vi := vs.getD i (zero, zero)
+      let vj := vs.getD ((i + 1) % n) (zero, zero)
+      go m (i + 1) (acc + (vj.1 - vi.1) * (vj.2 + vi.2))
+  go n 0 zero
+
+def scaleG' [Mul α] (p : List (α × α)) (s : α) : List (α × α) := p.map (fun v => (v.1 * s, v.2 * s))
+
 /-! ### tie to the `Float` model -/
 
 def toPair (v : V2) : Float × Float := (v.x, v.y)
@@ -96,6 +110,24 @@ theorem pentagonLocal_tie (a : Anchor) :
     (getPentagonLocal a).map toPair =
       pentagonLocalG (pentagonConstants.pentagon.map toPair) (toPair pentagonConstants.w) pentagonConstants.basis
         Float.ofInt a := pentagonLocalOf_tie pentagonConstants a
+
+theorem polyArea_tie (vs : Poly) : polyArea vs = areaG (0.0 : Float) (vs.map toPair) := by
+  unfold polyArea areaG
+  simp only [List.length_map]
+  suffices h : ∀ m i acc, polyArea.go vs vs.length m i acc = areaG.go (0.0 : Float) (vs.map toPair) vs.length m i acc from h _ _ _
+  intro m
+  induction m with
+  | zero => intro i acc; rfl
+  | succ m ih =>
+    intro i acc
+    unfold polyArea.go areaG.go
+    rewrite [ih]
+    have e : ∀ j, (vs.map toPair).getD j ((0.0 : Float), (0.0 : Float)) = toPair (vs.getD j default) := by
+      intro j
+      simp only [List.getD_eq_getElem?_getD, List.getElem?_map]
+      cases vs[j]? <;> rfl
+    rewrite [e, e]
+    rfl
 
 theorem polyCenter_tie (vs : Poly) :
     toPair (polyCenter vs) = centreG (0.0 : Float) (Float.ofNat vs.length) (vs.map toPair) := by
